@@ -25,9 +25,9 @@ def gen(run):
     maxl = 3 if run.tier == "quick" else 4
     ex = [pl.case(P, c, OPS) for c in pl.files(alpha, maxl)]
     # copies of the path / the needle back to back: a rejected candidate directly followed by the next one
-    ex += [pl.case(P, c, OPS) for c in pl.files(pl.adjacent(P), 3)]
+    ex += [pl.case(P, c, OPS) for c in pl.files(pl.adjacent(P), maxl - 1)]
     # printf directives in lines that are kept
-    ex += [pl.case(P, c, OPS) for c in pl.files(pl.percent(P), 3)]
+    ex += [pl.case(P, c, OPS) for c in pl.files(pl.percent(P), maxl - 1)]
     small = [pl.case(pl.P_PLAIN, c, OPS) for c in pl.files(pl.alphabet18(pl.P_PLAIN), 2)]
     small += [pl.case(P, c, OPS) for c in pl.files(pl.near_miss() + alpha[:6], 2)]        # near misses of the search needle
     nr = 300 if run.tier == "quick" else 5000
@@ -51,7 +51,7 @@ def check(run):
     nv += pl.report(run, PROP, r2, "exhaustive", plain, KINDS) if not nv else 0
     mism = r1["mismatch"] + r2["mismatch"]
     if not ok and nv == 0:
-        run.violation("proof:%s" % failed, "proof", "proof obligation no longer checks: %s\n%s" % (failed, log[-1500:]), {"theorem": failed, "coq_log": log[-3000:]})
+        run.violation("proof:%s" % failed, "proof", "proof obligation no longer checks: %s | %s\n%s" % (failed, " ; ".join(n for n in run.notes if n.startswith("translator") or n.startswith("skeleton")) or "no translator note", log[-1500:]), {"theorem": failed, "coq_log": log[-3000:]})
     if mism and nv == 0:
         i, c, m, im = mism[0]
         run.violation("corr:enable", "correspondence", "model and snoopyctl differ on %d cases although spec_C18_ok holds on the outputs; first: %s" % (len(mism), pl.show(c)),
